@@ -3,6 +3,13 @@ pub mod std_gaps {
     use vstd::prelude::*;
     use vstd::std_specs::cmp::*;
     verus! {
+    /// core::cmp::Ordering's derived PartialEq is structural equality (vstd has no spec for it)
+    #[verifier::allow(broadcast_without_trigger)]
+    pub broadcast axiom fn axiom_ordering_eq_obeys()
+        ensures <core::cmp::Ordering as PartialEqSpec>::obeys_eq_spec();
+    pub broadcast axiom fn axiom_ordering_eq(a: core::cmp::Ordering, b: core::cmp::Ordering)
+        ensures #[trigger] PartialEqSpec::eq_spec(&a, &b) == (a == b);
+
     pub assume_specification<T: core::cmp::Ord>[ core::cmp::max ](a: T, b: T) -> (r: T)
         ensures
             <T as OrdSpec>::obeys_cmp_spec() ==> r == (if a.cmp_spec(&b) == core::cmp::Ordering::Greater { a } else { b });
